@@ -9,6 +9,7 @@ package method_evaluator
 //@ # Mechanism: checkAndPropagateArgs looks at the arguments and at the declared parameter names
 //@ # only through prioritizeArgTs / prioritizeDefineArgNames, which put the keyword entries last,
 //@ # sorted by key.  (A sorted arrangement of pairwise distinct keys is unique: cited lemma.)
+//@ spec callKey(f, c, m) = f + "\x00" + c + "\x00" + m
 //@ spec allNonNil(ts) = forall(i, 0 <= i && i < len(ts) ==> ts[i] != nil)
 //@ # (quantified over absolute positions of the backing array so that instantiation needs no arithmetic matching)
 //@ spec sortedByKey(ts, from) = forall(a, forall(b, offof(ts) + from <= a && a < b && b < offof(ts) + len(ts) ==> !(absat(ts, b).key < absat(ts, a).key)))
@@ -135,8 +136,11 @@ package method_evaluator
 //@ func ti/eval/method_evaluator.NewMethodEvaluator
 //@   sitesonly
 //@   inline 10 2
-//@   mapwrite[C24] base.MethodCallPoint ctx.round == "check" && key == evaluatedObjectT.GetFrame() + evaluatedObjectT.GetObjectClass() + methodIdentifierT.ToString()
-//@   mapwrite[C24] base.MethodCalleePoint ctx.round == "check" && key == ctx.frame + ctx.class + ctx.method
+//@   # (the three parts of a key are kept apart by a separator that no name contains - the lexer
+//@   # ends the input at a NUL, C03 - so `A` + `bc` and `Ab` + `c` are different methods)
+//@   mapwrite[C24] base.MethodCallPoint ctx.round == "check" && key == callKey(evaluatedObjectT.GetFrame(), evaluatedObjectT.GetObjectClass(), methodIdentifierT.ToString())
+//@   mapwrite[C24] base.MethodCalleePoint ctx.round == "check" && key == callKey(ctx.frame, ctx.class, ctx.method)
+//@   witness site:mapwrite.0#0 "class A\n  def bc\n    1\n  end\nend\nclass Ab\n  def c\n    2\n  end\nend\ndef run1\n  x = A.new\n  x.bc\nend\ndef run2\n  y = Ab.new\n  y.c\nend\n" args "--llm-nav --target=c" expect "total callers: 2"
 //@   # and every evaluated call of the check round is recorded, exactly once in each table, with the
 //@   # row of the call and the enclosing method/class (whatever kind of method token it is)
 //@   ensures[C24] ctx.round == "check" ==> mapwrites(base.MethodCallPoint) == 1 && mapwrites(base.MethodCalleePoint) == 1
